@@ -21,6 +21,14 @@ class TeeX:
         self.lock = threading.Lock()
 
 
+class _SourceError:
+    # The value of the last `TeeX` in the chain if the input stream raised `exc`.
+    __slots__ = ('exc',)
+
+    def __init__(self, exc):
+        self.exc = exc
+
+
 class Fork:
     def __init__(
         self,
@@ -60,10 +68,16 @@ class Fork:
                             # is empty, the exception will be propagated, halting
                             # this fork. All the other forks will also get to this
                             # point and exit the same way.
-                            x = next(self.instream)
-                            box = TeeX(x)
-                            self.buffer.put(box)
-                            self.head.value = box
+                            try:
+                                x = next(self.instream)
+                            except StopIteration:
+                                raise
+                            except Exception as e:
+                                self.head.value = TeeX(_SourceError(e))
+                            else:
+                                box = TeeX(x)
+                                self.buffer.put(box)
+                                self.head.value = box
                     finally:
                         self.instream_lock.release()
                 self.next = self.head.value
@@ -77,6 +91,14 @@ class Fork:
             else:
                 raise StopIteration
         else:
+            if isinstance(self.next.value, _SourceError):
+                # The input stream failed at this point. Every fork raises the exception
+                # here, after the elements that precede it.
+                exc = self.next.value.exc
+                self.next = None
+                self._state = 1
+                raise exc
+
             while self.next.next is None:
                 # During this loop while waiting on the `instream_lock`,
                 # `self.next.next` may become not None thanks to another Fork's
@@ -95,6 +117,11 @@ class Fork:
                             # The next call to `__next__` will land
                             # in the first branch and raise `StopIteration`.
                             pass
+                        except Exception as e:
+                            # `instream` failed. Do not raise now: the current element
+                            # has not been returned yet, the lock must be released,
+                            # and the other forks need to see the failure as well.
+                            self.next.next = TeeX(_SourceError(e))
                         else:
                             box = TeeX(x)
                             self.next.next = box  # IMPORTANT: this line goes before the next to avoid race.
